@@ -13,6 +13,15 @@ if ! cmp -s $V/build/Consts.v.new $V/coq/gen/Consts.v; then
   cp $V/build/Consts.v.new $V/coq/gen/Consts.v
   echo "Consts.v changed"
 fi
+if [ ! -x $V/build/syncskel ] || [ $V/tools/syncskel/main.go -nt $V/build/syncskel ]; then
+  (cd $V/tools/syncskel && go1.26 build -o $V/build/syncskel .)
+fi
+$V/build/syncskel > $V/build/Skel.v.new
+if ! cmp -s $V/build/Skel.v.new $V/coq/gen/Skel.v; then
+  cp $V/build/Skel.v.new $V/coq/gen/Skel.v
+  echo "Skel.v changed"
+fi
 cd $V/coq/gen
+[ -f Makefile ] && [ Makefile -nt _CoqProject ] || rm -f Makefile
 [ -f Makefile ] || coq_makefile -f _CoqProject -o Makefile >/dev/null 2>&1
 timeout 600 make >/dev/null 2>&1 || { echo "coq/gen build failed"; exit 1; }
